@@ -101,7 +101,7 @@ theorem cacheRollback_some {snap : AMap Nat} {t t' : AMap Storage}
           intro p hp
           obtain ⟨q, hq, e⟩ := hk p hp
           have := hlt q hq
-          simp only at this ⊢
+          show c0 < p.1
           omega
         · intro c st' hc
           rw [AMap.get_cons] at hc
@@ -190,5 +190,236 @@ theorem Storage.writes_Inv (st : Storage) (ws : List (Nat × SVal)) (h : st.buf.
   | cons w t ih =>
     simp only [Storage.writes, List.foldl_cons]
     exact ih _ (Buf.Inv_put h _ _)
+
+
+/-! ### histories above a block snapshot -/
+
+/-- `s` extends `s0`: everything `s0` holds is still there, underneath what was added since. -/
+structure Ext (s0 s : SDB) : Prop where
+  inv : s.Inv
+  trie : s.trie = s0.trie
+  pre : s.buf.entries.take s0.buf.entries.length = s0.buf.entries
+  len : s0.buf.entries.length ≤ s.buf.nextIdx
+  sto : ∀ c st0, s0.cache.get c = some st0 → ∃ st, s.cache.get c = some st ∧ st.trie = st0.trie ∧
+    st.dirty = st0.dirty ∧ st.buf.entries.take st0.buf.entries.length = st0.buf.entries ∧
+    st0.buf.entries.length ≤ st.buf.nextIdx
+
+theorem Ext_refl {s0 : SDB} (h : s0.Inv) : Ext s0 s0 :=
+  ⟨h, rfl, List.take_length, by rw [h.buf.len]; exact Nat.le_refl _,
+   fun c st0 hc => ⟨st0, hc, rfl, rfl, List.take_length, by
+     rw [(SDB.sto_get h hc).len]; exact Nat.le_refl _⟩⟩
+
+theorem Ext_put {s0 s : SDB} (h : Ext s0 s) (a : Nat) (v : AVal) : Ext s0 (s.putState a v) := by
+  refine ⟨SDB.Inv_putState h.inv a v, h.trie, ?_, ?_, h.sto⟩
+  · simp only [SDB.putState, Buf.put_entries]
+    rw [List.take_append_of_le_length (by rw [← h.inv.buf.len]; exact h.len)]
+    exact h.pre
+  · simp only [SDB.putState, Buf.put_nextIdx]
+    have := h.len; omega
+
+/-- a write through a handle on a staged storage -/
+theorem Ext_write {s0 s : SDB} (h : Ext s0 s) {c : Nat} {st : Storage} (hc : s.cache.get c = some st)
+    (k : Nat) (v : SVal) :
+    Ext s0 { s with cache := s.cache.set c { st with buf := st.buf.put k v } } := by
+  have hst := SDB.sto_get h.inv hc
+  refine ⟨SDB.Inv_setCache h.inv c _ (Buf.Inv_put hst k v), h.trie, h.pre, h.len, ?_⟩
+  intro c' st0 hc'
+  obtain ⟨st1, e1, e2, e3, e4, e5⟩ := h.sto c' st0 hc'
+  simp only [AMap.get_set]
+  by_cases hcc : c = c'
+  · subst hcc
+    rw [hc] at e1
+    simp only [Option.some.injEq] at e1
+    subst e1
+    refine ⟨{ st with buf := st.buf.put k v }, by rw [if_pos rfl], e2, e3, ?_, ?_⟩
+    · simp only [Buf.put_entries]
+      rw [List.take_append_of_le_length (by rw [← hst.len]; exact e5)]
+      exact e4
+    · simp only [Buf.put_nextIdx]; omega
+  · exact ⟨st1, by rw [if_neg hcc]; exact e1, e2, e3, e4, e5⟩
+
+theorem Ext_stageNew {s0 s : SDB} (h : Ext s0 s) {c : Nat} (hc : s.cache.get c = none)
+    (st : Storage) (hst : st.buf.Inv) : Ext s0 (s.stage c st) := by
+  refine ⟨SDB.Inv_setCache h.inv c st hst, h.trie, h.pre, h.len, ?_⟩
+  intro c' st0 hc'
+  obtain ⟨st1, e1, e2, e3, e4, e5⟩ := h.sto c' st0 hc'
+  have hcc : c ≠ c' := by
+    intro e; subst e; rw [hc] at e1; cases e1
+  exact ⟨st1, by simp only [SDB.stage, AMap.get_set, if_neg hcc]; exact e1, e2, e3, e4, e5⟩
+
+theorem covers_spec {base sn : BlockSnap} (h : base.covers sn = true) :
+    base.state ≤ sn.state ∧
+    ∀ c r0, base.storage.get c = some r0 → ∃ r, sn.storage.get c = some r ∧ r0 ≤ r := by
+  simp only [BlockSnap.covers, Bool.and_eq_true, decide_eq_true_eq, List.all_eq_true] at h
+  refine ⟨h.1, ?_⟩
+  intro c r0 hc
+  have := h.2 (c, r0) (AMap.mem_of_get hc)
+  simp only at this
+  split at this
+  · rename_i r hr
+    exact ⟨r, hr, by simpa using this⟩
+  · cases this
+
+theorem blockRollback_some {s s' : SDB} {sn : BlockSnap} (h : s.blockRollback sn = some s') :
+    ∃ c b, cacheRollback sn.storage s.cache = some c ∧ s.buf.rollback sn.state = some b ∧
+      s' = { s with cache := c, buf := b } := by
+  simp only [SDB.blockRollback] at h
+  split at h
+  · rename_i c b hc hb
+    simp only [Option.some.injEq] at h
+    exact ⟨c, b, hc, hb, h.symm⟩
+  · cases h
+
+theorem Ext_rollback {s0 s s' : SDB} (h : Ext s0 s) (h0 : s0.Inv) {sn : BlockSnap}
+    (hcov : s0.blockSnapshot.covers sn = true) (hr : s.blockRollback sn = some s') : Ext s0 s' := by
+  obtain ⟨cache', b', hc, hb, rfl⟩ := blockRollback_some hr
+  obtain ⟨hst, hcs⟩ := covers_spec hcov
+  simp only [SDB.blockSnapshot, Buf.snapshot] at hst hcs
+  obtain ⟨_, hbe, hbn, hbi⟩ := Buf.rollback_some h.inv.buf hb
+  obtain ⟨w', ca, cb⟩ := cacheRollback_some hc h.inv.wf
+  have hlen0 := h0.buf.len
+  refine ⟨⟨hbi, w', ?_⟩, h.trie, ?_, ?_, ?_⟩
+  · intro p hp
+    have hg := AMap.get_of_mem w' (k := p.1) (v := p.2) hp
+    obtain ⟨st, r, b, e1, _, e3, e4⟩ := ca p.1 p.2 hg
+    obtain ⟨_, _, _, hi⟩ := Buf.rollback_some (SDB.sto_get h.inv e1) e3
+    rw [e4]; exact hi
+  · show b'.entries.take s0.buf.entries.length = s0.buf.entries
+    rw [hbe, List.take_take, Nat.min_eq_left (by omega)]
+    exact h.pre
+  · show s0.buf.entries.length ≤ b'.nextIdx
+    omega
+  · intro c st0 hc0
+    obtain ⟨st1, e1, e2, e3, e4, e5⟩ := h.sto c st0 hc0
+    have hs0 : (cacheSnapshot s0.cache).get c = some st0.buf.nextIdx := by
+      rw [cacheSnapshot_get, hc0]; rfl
+    obtain ⟨r, hr1, hr2⟩ := hcs c _ hs0
+    obtain ⟨b, hb1, hb2⟩ := cb c st1 r e1 hr1
+    obtain ⟨_, be, bn, _⟩ := Buf.rollback_some (SDB.sto_get h.inv e1) hb1
+    have hl0 := (SDB.sto_get h0 hc0).len
+    refine ⟨_, hb2, e2, e3, ?_, ?_⟩
+    · show b.entries.take st0.buf.entries.length = st0.buf.entries
+      rw [be, List.take_take, Nat.min_eq_left (by omega)]
+      exact e4
+    · show st0.buf.entries.length ≤ b.nextIdx
+      omega
+
+/-- Rolling back to the snapshot of `s0` from any state that extends `s0` yields `s0` itself. -/
+theorem Ext_restore {s0 s : SDB} (h : Ext s0 s) (h0 : s0.Inv) :
+    s.blockRollback s0.blockSnapshot = some s0 := by
+  have hlen0 := h0.buf.len
+  -- defined
+  obtain ⟨cache', hc⟩ := cacheRollback_defined (snap := cacheSnapshot s0.cache) h.inv.sto (by
+    intro p hp r hr
+    rw [cacheSnapshot_get] at hr
+    cases hg : s0.cache.get p.1 with
+    | none => rw [hg] at hr; cases hr
+    | some st0 =>
+      rw [hg] at hr
+      simp only [Option.map_some, Option.some.injEq] at hr
+      obtain ⟨st1, e1, _, _, _, e5⟩ := h.sto p.1 st0 hg
+      have := AMap.get_of_mem h.inv.wf (k := p.1) (v := p.2) hp
+      rw [this] at e1
+      simp only [Option.some.injEq] at e1
+      subst e1
+      rw [← hr, (SDB.sto_get h0 hg).len]; exact e5)
+  obtain ⟨b', hb, hbe, _, hbi⟩ := Buf.rollback_spec h.inv.buf (n := s0.buf.nextIdx) (by
+    have := h.len; omega)
+  obtain ⟨w', ca, cb⟩ := cacheRollback_some hc h.inv.wf
+  have hbuf : b' = s0.buf := Buf.Inv_ext hbi h0.buf (by rw [hbe, hlen0]; exact h.pre)
+  have hcache : cache' = s0.cache := by
+    apply AMap.ext w' h0.wf
+    intro c
+    cases hg : s0.cache.get c with
+    | none =>
+      cases hg' : cache'.get c with
+      | none => rfl
+      | some st' =>
+        obtain ⟨_, r, _, _, e2, _, _⟩ := ca c st' hg'
+        rw [cacheSnapshot_get, hg] at e2
+        cases e2
+    | some st0 =>
+      obtain ⟨st1, e1, e2, e3, e4, _⟩ := h.sto c st0 hg
+      have hs0 : (cacheSnapshot s0.cache).get c = some st0.buf.nextIdx := by
+        rw [cacheSnapshot_get, hg]; rfl
+      obtain ⟨b, hb1, hb2⟩ := cb c st1 _ e1 hs0
+      obtain ⟨_, be, _, bi⟩ := Buf.rollback_some (SDB.sto_get h.inv e1) hb1
+      have hl0 := (SDB.sto_get h0 hg).len
+      have : b = st0.buf := Buf.Inv_ext bi (SDB.sto_get h0 hg) (by rw [be, hl0]; exact e4)
+      rw [hb2, this]
+      obtain ⟨b1, t1, d1⟩ := st1
+      obtain ⟨b0, t0, d0⟩ := st0
+      simp only at e2 e3
+      subst e2 e3
+      rfl
+  simp only [SDB.blockRollback, SDB.blockSnapshot, Buf.snapshot, hc, hb, hbuf, hcache]
+  obtain ⟨b1, c1, t1⟩ := s
+  obtain ⟨b0, c0, t0⟩ := s0
+  have := h.trie
+  simp only at this
+  subst this
+  rfl
+
+theorem run_Ext {s0 : SDB} (h0 : s0.Inv) (ops : List SDB.Op) :
+    ∀ s s', Ext s0 s → SDB.run s0.blockSnapshot s ops = some s' → Ext s0 s' := by
+  induction ops with
+  | nil =>
+    intro s s' h hr
+    simp only [SDB.run, Option.some.injEq] at hr
+    subst hr; exact h
+  | cons o t ih =>
+    intro s s' h hr
+    cases o with
+    | putState a v =>
+      simp only [SDB.run] at hr
+      exact ih _ _ (Ext_put h a v) hr
+    | setData c k v =>
+      simp only [SDB.run] at hr
+      split at hr
+      · rename_i st hc
+        exact ih _ _ (Ext_write h hc k (some v)) hr
+      · cases hr
+    | deleteData c k =>
+      simp only [SDB.run] at hr
+      split at hr
+      · rename_i st hc
+        exact ih _ _ (Ext_write h hc k none) hr
+      · cases hr
+    | stageNew c content ws =>
+      simp only [SDB.run] at hr
+      split at hr
+      · rename_i hc
+        exact ih _ _ (Ext_stageNew h hc _ (Storage.writes_Inv _ ws Buf.Inv_empty)) hr
+      · cases hr
+    | rollback sn =>
+      simp only [SDB.run] at hr
+      split at hr
+      · rename_i hcov
+        split at hr
+        · rename_i s1 hs1
+          exact ih _ _ (Ext_rollback h h0 hcov hs1) hr
+        · cases hr
+      · cases hr
+
+/-- A snapshot taken anywhere above `s0` covers `s0` (so it is an admissible rollback target). -/
+theorem Ext_covers {s0 s : SDB} (h : Ext s0 s) (h0 : s0.Inv) :
+    s0.blockSnapshot.covers s.blockSnapshot = true := by
+  simp only [BlockSnap.covers, SDB.blockSnapshot, Buf.snapshot, Bool.and_eq_true, List.all_eq_true]
+  refine ⟨by have := h.len; have := h0.buf.len; exact decide_eq_true (by omega), ?_⟩
+  intro p hp
+  have hg := AMap.get_of_mem (by
+    simp only [cacheSnapshot, AMap.WF]
+    exact (List.pairwise_map).2 h0.wf) (k := p.1) (v := p.2) hp
+  rw [cacheSnapshot_get] at hg
+  cases hc : s0.cache.get p.1 with
+  | none => rw [hc] at hg; cases hg
+  | some st0 =>
+    rw [hc] at hg
+    simp only [Option.map_some, Option.some.injEq] at hg
+    obtain ⟨st1, e1, _, _, _, e5⟩ := h.sto p.1 st0 hc
+    rw [cacheSnapshot_get, e1]
+    simp only [Option.map_some, decide_eq_true_eq]
+    rw [← hg, (SDB.sto_get h0 hc).len]
+    exact e5
 
 end Aergo.Buffer
